@@ -25,6 +25,11 @@ CO = 'connection_options::ConnectionOptions::'
 
 
 def run(ctx):
+    _run_main8(ctx)
+    _round8(ctx)
+
+
+def _run_main8(ctx):
     _run_main(ctx)
     _shared_r4(ctx)
 
@@ -178,3 +183,10 @@ def _shared_r4(ctx):
     """Rules of other properties that are necessary conditions of this one too (found by seeding round 4)."""
     with ctx.rule('R15.6', 'heartbeat timing follows the announced interval: rx timer at the interval, tx timer at half of it (shared with C17)', floor=1) as r:
         A.include(ctx, r, 'c17', 'R17.1', pick=('rx-tx-intervals', 'max-missed'))
+
+
+def _round8(ctx):
+    """Rules that are necessary conditions of this property too (found by seeding round 8)."""
+    from rules import arms as A
+    with ctx.rule('R15.7', 'the heartbeat queued on a tx expiry is really queued while the connection is open: push_heartbeat is gated by the seal, not by its negation (shared with C08)', floor=1) as r:
+        A.include(ctx, r, 'c08', 'R08.2', pick=('push_heartbeat:gated',))
